@@ -534,7 +534,7 @@ func (o *LogOracle) Final(s *vsched.Sched, final string) {
 		if fc == nil {
 			continue
 		}
-		_, _, _, fcommit := server.VerifPeekFollower(fc)
+		_, _, fcommit := server.VerifPeekFollower(fc)
 		nl := NodeLog(o.c, name)
 		if nl == nil {
 			continue
